@@ -37,6 +37,7 @@ def inject_cases(tier, sigs):
     out = []
     seen = set()
     pools = Pools(size=2)
+    big_pools = Pools(size=3)
 
     def add(kind, name, args, positions, output=None):
         src = call_src(name, args) if name else args
@@ -60,16 +61,26 @@ def inject_cases(tier, sigs):
                 base = [pools.first(p) for p in pts]
                 if any(b is None for b in base):
                     continue
+                bases = [base]
+                if tier != 'quick':
+                    # a second and third set of well-formed companions for the error argument
+                    for k in (1, 2):
+                        alt = [(big_pools.get(p, 3) + [b])[min(k, len(big_pools.get(p, 3)) - 1)] if big_pools.get(p, 3) else b for p, b in zip(pts, base)]
+                        if alt not in bases:
+                            bases.append(alt)
                 subsets = [(i,) for i in range(ar)]
                 if tier != 'quick' or ar <= 2:
                     subsets += list(itertools.combinations(range(ar), 2))
-                for sub in subsets:
-                    args = list(base)
-                    for i in sub:
-                        args[i] = E(i)
-                    if sig['name'] == 'set_default' and sub == (2,):
-                        continue   # the shipped suite pins set_default as skipping its value when the key is present (script 351)
-                    add('native', sig['name'], args, sub)
+                    if tier != 'quick' and ar >= 3:
+                        subsets += list(itertools.combinations(range(ar), 3))
+                for base_ in bases:
+                    for sub in subsets:
+                        args = list(base_)
+                        for i in sub:
+                            args[i] = E(i)
+                        if sig['name'] == 'set_default' and 2 in sub and 0 not in sub and 1 not in sub:
+                            continue   # the shipped suite pins set_default as skipping its value when the key is present (script 351)
+                        add('native', sig['name'], args, sub)
     # an error argument together with an argument that makes the callee fail on its own (out-of-range index, zero divisor, empty
     # receiver, ...): the received error is still the result
     alt_pools = Pools(ints=[0, 7, -4, 1 << 64], strs=['', 'ab'], floats=[0.0, -1.5], size=4)
